@@ -321,6 +321,12 @@ func innerResponse(plain []byte) string {
 }
 
 func callEntry(sp *saml2.SAMLServiceProvider, entry, enc string) (res, data, errc string) {
+	res, data, errc, _ = callEntryText(sp, entry, enc)
+	return
+}
+
+// callEntryText is callEntry that also returns the error's text.
+func callEntryText(sp *saml2.SAMLServiceProvider, entry, enc string) (res, data, errc, text string) {
 	defer func() {
 		if r := recover(); r != nil {
 			res, errc = "panic", fmt.Sprint(r)
@@ -351,6 +357,12 @@ func callEntry(sp *saml2.SAMLServiceProvider, entry, enc string) (res, data, err
 		isNil = r == nil
 		if r != nil {
 			data = fmt.Sprint(r.NameID, r.SessionIndex, r.ResponseSignatureValidated, r.Values.GetAll("roles"))
+			if wi := r.WarningInfo; wi != nil {
+				data += fmt.Sprint(wi.OneTimeUse, wi.NotInAudience, wi.InvalidTime)
+				if wi.ProxyRestriction != nil {
+					data += fmt.Sprint(wi.ProxyRestriction.Count, wi.ProxyRestriction.Audience)
+				}
+			}
 		}
 	case "predecodeResp":
 		var r *types.UnverifiedBaseResponse
@@ -384,6 +396,9 @@ func callEntry(sp *saml2.SAMLServiceProvider, entry, enc string) (res, data, err
 	res, _ = classify(isNil, err)
 	e := projectErr(err)
 	errc = e.Cls + ":" + e.Type + ":" + fmt.Sprint(e.Names)
+	if err != nil {
+		text = err.Error()
+	}
 	return
 }
 
